@@ -2,6 +2,7 @@ package retriever
 
 import (
 	"fmt"
+	"path"
 	"sort"
 	"time"
 
@@ -146,6 +147,7 @@ func (s Manifest) validate() error {
 	}
 
 	seenGraphs := map[string]struct{}{}
+	seenPaths := map[string]struct{}{}
 	for _, graphEntry := range s.Graphs {
 		if graphEntry.Name == "" {
 			return fmt.Errorf("manifest graph entry has empty name")
@@ -164,6 +166,15 @@ func (s Manifest) validate() error {
 			if fileEntry.Path == "" {
 				return fmt.Errorf("manifest graph %q contains empty file path", graphEntry.Name)
 			}
+
+			// A fragment listed twice passes every checksum and is loaded twice
+			cleanPath := path.Clean(fileEntry.Path)
+
+			if _, seen := seenPaths[cleanPath]; seen {
+				return fmt.Errorf("manifest lists file %q more than once", fileEntry.Path)
+			}
+
+			seenPaths[cleanPath] = struct{}{}
 
 			switch fileEntry.Phase {
 			case PhaseNodes:
